@@ -153,8 +153,11 @@ size_t SubjectRouter::Node::notify(RoutingLevelView levelView, Args &&...args) {
         if (nextLevel.isRegex()) {
             size_t notifyCount = 0;
 
+            // every matching child receives its own copy of by-value arguments;
+            // `Args` must not be re-deduced from the (lvalue) pack: the subjects
+            // are stored type-erased and are cast back using exactly `Args...`
             for (auto & [name, node] : m_children)
-                notifyCount += node.notify(nextLevel, args...);
+                notifyCount += node.template notify<Args...>(nextLevel, static_cast<Args>(args)...);
 
             return notifyCount;
         } else {
